@@ -21,7 +21,8 @@ RULE = ("cases: (a) ill-defined models by construction: self reference, cycles o
         "(-1,k)/(-2,k)), same compound id with different sign / value / children (incl. children that differ only by hash-twin "
         "leaf bounds), leaf vs compound with the same id and different bounds; (b) trees with pairwise distinct ids; (c) sharing "
         "by identity, by equal copy and by equal definition through another class (Any(a,b) next to Xor(a,b)). non-trivial: every "
-        "case is; distinct by (class, canonical shape digest)")
+        "case is; distinct by (class, canonical shape digest)"
+        ' Classes added after the seeded rounds: sub-proposition next to a leaf with the same id, generated-id collisions, cross-branch cycles, same id and same child ids with differences one level further down.')
 BUDGET = {"quick": (12, 500, 90), "thorough": (16, 4000, 1200)}
 ILL = ["self-ref", "cycle", "cycle-cross-branch", "deep-ambivalence", "dup-child", "dup-child-ref-leaf", "generated-id-collision", "compound-value-twin", "leaf-bounds", "leaf-bounds-twin", "compound-sign", "compound-value",
        "compound-children", "compound-children-twin", "leaf-vs-compound"]
